@@ -4,3 +4,4 @@ import Proofs.XReal
 import Proofs.Bonferroni
 import Proofs.DepGraph
 import Proofs.EnvPersist
+import Proofs.Use
